@@ -17,6 +17,8 @@ def sh(cmd, **kw):
 
 
 _BASE = {}
+SEED = 0
+CHECK_ONLY = False
 _BASE_LOCK = __import__("threading").Lock()
 
 
@@ -24,7 +26,7 @@ def baseline_keys(prop, tier):
     """violation keys the same command reports on the unchanged tree (same shard count and seed): they say nothing about a seeded change"""
     with _BASE_LOCK:
         if prop not in _BASE:
-            k = subprocess.run([os.path.join(ROOT, "check"), prop, "--tier", tier, "--no-evidence", "--shards", "8"], env=dict(os.environ, PYTHONDONTWRITEBYTECODE="1"), capture_output=True, text=True, timeout=7200, cwd=ROOT)
+            k = subprocess.run([os.path.join(ROOT, "check"), prop, "--tier", tier, "--no-evidence", "--shards", "8", "--seed", str(SEED)], env=dict(os.environ, PYTHONDONTWRITEBYTECODE="1"), capture_output=True, text=True, timeout=7200, cwd=ROOT)
             _BASE[prop] = {"rc": k.returncode, "keys": sorted(set(re.findall(r"VIOLATION property=\S+ replay=\S+ key=(\S+)", k.stdout)))}
         return _BASE[prop]
 
@@ -54,14 +56,15 @@ def run_one(prop, mdir, tier, checks_extra=()):
         env = dict(os.environ, PYTHONDONTWRITEBYTECODE="1")
         demo = os.path.join(mdir, "demo.py")
         t0 = time.time()
-        c = subprocess.run(["/venv/bin/python", demo], env=dict(env, PYTHONPATH="/repo"), capture_output=True, text=True, timeout=600, cwd="/tmp")
-        m = subprocess.run(["/venv/bin/python", demo], env=dict(env, PYTHONPATH=wt), capture_output=True, text=True, timeout=600, cwd="/tmp")
-        res["demo_clean_rc"], res["demo_mutant_rc"] = c.returncode, m.returncode
-        t = sh(["/tmp/seedtools/run_tests.sh", wt]) if os.path.exists("/tmp/seedtools/run_tests.sh") else None
-        res["tests"] = (t.stdout.strip().splitlines() or ["?"])[1] if t else "not run"
+        if not CHECK_ONLY:
+            c = subprocess.run(["/venv/bin/python", demo], env=dict(env, PYTHONPATH="/repo"), capture_output=True, text=True, timeout=600, cwd="/tmp")
+            m = subprocess.run(["/venv/bin/python", demo], env=dict(env, PYTHONPATH=wt), capture_output=True, text=True, timeout=600, cwd="/tmp")
+            res["demo_clean_rc"], res["demo_mutant_rc"] = c.returncode, m.returncode
+            t = sh(["/tmp/seedtools/run_tests.sh", wt]) if os.path.exists("/tmp/seedtools/run_tests.sh") else None
+            res["tests"] = (t.stdout.strip().splitlines() or ["?"])[1] if t else "not run"
         for p in [prop] + list(checks_extra):
             t1 = time.time()
-            k = subprocess.run([os.path.join(ROOT, "check"), p, "--tier", tier, "--no-evidence", "--shards", "8"], env=dict(env, BNPMON_REPO=wt), capture_output=True, text=True, timeout=7200, cwd=ROOT)
+            k = subprocess.run([os.path.join(ROOT, "check"), p, "--tier", tier, "--no-evidence", "--shards", "8", "--seed", str(SEED)], env=dict(env, BNPMON_REPO=wt), capture_output=True, text=True, timeout=7200, cwd=ROOT)
             keys = re.findall(r"VIOLATION property=\S+ replay=\S+ key=(\S+)", k.stdout)
             base = baseline_keys(p, tier)
             keys = [x for x in keys if x not in base["keys"]]
@@ -81,10 +84,14 @@ def main():
     ap.add_argument("--tier", default="quick")
     ap.add_argument("--jobs", type=int, default=3)
     ap.add_argument("--out", default=None)
+    ap.add_argument("--seed", type=int, default=0)
+    ap.add_argument("--check-only", action="store_true", help="skip demo and repository tests (already confirmed): only run the check")
     a = ap.parse_args()
+    global SEED, CHECK_ONLY
+    SEED, CHECK_ONLY = a.seed, a.check_only
     jobs = []
     for d in a.dirs:
-        d = d.rstrip("/")
+        d = os.path.abspath(d.rstrip("/"))
         meta = os.path.join(d, "meta.json")
         if os.path.exists(meta):
             prop = json.load(open(meta))["property"]
